@@ -52,6 +52,15 @@ var vxC37Ctx = [][2]string{
 	{"package p\n\nimport ", "\"os\"\n"},
 	{"package p\n\nimport (\n\t\"os\"\n\t", "\n)\n"},
 	{"package p\n\nvar x = -", "y\n"},
+	// embedded fields (with tags), embedded interfaces, fields of function type
+	{"package p\n\ntype T struct {\n\tBase ", "\n}\n"},
+	{"package p\n\ntype T struct {\n\t*Other `yaml:\"o\"`", "\n\tio.Reader `json:\"r\"`\n}\n"},
+	{"package p\n\ntype T struct {\n\tio.Reader", "\n}\n"},
+	{"package p\n\ntype I interface {\n\tio.Reader\n\t", "\n}\n"},
+	{"package p\n\ntype T struct {\n\tf func(a int", ") string\n}\n"},
+	{"package p\n\ntype T struct {\n\ta, b int ", "\n}\n"},
+	{"package p\n\nfunc f(int, ", "string) (bool, error) {\n\treturn false, nil\n}\n"},
+	{"package p\n\nvar x = struct{ A int ", "}{1}\n"},
 }
 
 // vxHdrSig: signature of a go/ast tree without function and closure bodies.
